@@ -48,9 +48,12 @@ def oracle(case):
     from .c03 import err_site
     try:
         with contextlib.redirect_stdout(io.StringIO()):
+            import warnings
             import nifty.cl as ift
             ift.logger.setLevel(logging.ERROR)
-            return _oracle(case, ift)
+            with warnings.catch_warnings():
+                warnings.simplefilter("ignore")
+                return _oracle(case, ift)
     except Exception as e:
         return (f"{case['aux']}: raised {type(e).__name__} in {err_site(e)}: {str(e)[:120]}",
                 {"site": "aux:" + case["aux"], "kind": "error:" + type(e).__name__, "where": err_site(e)})
@@ -59,6 +62,8 @@ def oracle(case):
 def _oracle(case, ift):
     if case["aux"] == "sea":
         return _oracle_sea(case, ift)
+    if case["aux"] == "jaxsimp":
+        return _oracle_jax(case, ift)
     kind, n, S, wm = case["aux"], case["n"], case["S"], case["wm"]
     d = ift.DomainTuple.make(ift.UnstructuredDomain(n))
     fa = lambda k: ift.FieldAdapter(d, k)
@@ -171,4 +176,64 @@ def _oracle_sea(case, ift):
         ref = w if ref is None else ref + w
     if not close(np.concatenate([_arr(mv["a"]), _arr(mv["b"])]), ref / len(noise)):
         return ("sea: apply_metric is not the sample average of the position block of the metrics", dict(sig, kind="metric"))
+    return None
+
+
+# ---------------------------------------------------------------------------------------------- JAX operators
+def gen_jax(rng, n):
+    out = []
+    dy = lambda lo, hi: rng.randint(int(lo * 8), int(hi * 8)) / 8
+    for _ in range(n):
+        m = rng.choice([1, 2, 3])
+        out.append(dict(aux="jaxsimp", n=m, a=[dy(-1, 1) for _ in range(m)], b=[dy(-1, 1) for _ in range(m)],
+                        d=[dy(-2, 2) for _ in range(m)], S=rng.choice([["a"], ["b"]]), wm=rng.random() < 0.6,
+                        kind=rng.choice(["operator", "likelihood"])))
+    return out
+
+
+def _oracle_jax(case, ift):
+    """JaxOperator / JaxLikelihoodEnergyOperator: own simplification rules (closure over the constants)"""
+    import jax
+    jax.config.update("jax_enable_x64", True)
+    import jax.numpy as jnp
+    import warnings
+    n, S, wm = case["n"], case["S"], case["wm"]
+    d = ift.DomainTuple.make(ift.UnstructuredDomain(n))
+    md = ift.MultiDomain.make({"a": d, "b": d})
+    x = ift.MultiField.from_dict({"a": ift.makeField(d, np.array(case["a"])), "b": ift.makeField(d, np.array(case["b"]))})
+    data = np.array(case["d"])
+    sig = {"site": "aux:jaxsimp", "jaxkind": case["kind"]}
+    var = [k for k in ("a", "b") if k not in S]
+    if case["kind"] == "operator":
+        op = ift.JaxOperator(md, d, lambda t: jnp.exp(t["a"]) * t["b"] + jnp.sin(t["a"]))
+        wm = False
+    else:
+        func = lambda t: 0.5 * jnp.sum((jnp.exp(t["a"]) * t["b"] - jnp.asarray(data)) ** 2)
+        trafo = ift.Adder(ift.makeField(d, data), neg=True) @ (ift.FieldAdapter(d, "a").ptw("exp") * ift.FieldAdapter(d, "b"))
+        with warnings.catch_warnings():
+            warnings.simplefilter("ignore")
+            op = ift.JaxLikelihoodEnergyOperator(md, func, transformation=trafo, sampling_dtype=np.float64)
+    _, ops = op.simplify_for_constant_input(x.extract_by_keys(S))
+    if sorted(ops.domain.keys()) != var:
+        return (f"jaxsimp: simplified operator reads {sorted(ops.domain.keys())}", dict(sig, kind="domain"))
+    xv = x.extract_by_keys(var)
+    l0 = op(ift.Linearization.make_var(x, wm))
+    l1 = ops(ift.Linearization.make_var(xv, wm))
+    close = lambda a, b, tol=1e-11: bool(np.all(np.abs(np.asarray(a) - np.asarray(b)) <= tol * max(1.0, float(np.max(np.abs(b), initial=0)))))
+    if not close(_arr(l1.val), _arr(l0.val)) or not close(_arr(ops(xv)), _arr(op(x))):
+        return ("jaxsimp: value of the simplified operator differs from the original with the constants inserted", dict(sig, kind="value"))
+    tgt = l0.jac.target
+    m = max(tgt.size, 1)
+    idx = list(range(n)) if var == ["a"] else list(range(n, 2 * n))
+    J0 = _dense(l0.jac, md, tgt, ift)
+    J1 = _dense(l1.jac, l1.domain, tgt, ift)
+    if not close(J1, J0[:, idx]):
+        return ("jaxsimp: Jacobian of the simplified operator differs from the variable columns of the original", dict(sig, kind="jacobian"))
+    if (l0.metric is None) != (l1.metric is None):
+        return ("jaxsimp: metric presence differs", dict(sig, kind="metric-presence"))
+    if l0.metric is not None:
+        M0 = _dense(l0.metric, md, md, ift)
+        M1 = _dense(l1.metric, l1.domain, l1.domain, ift)
+        if not close(M1, M0[np.ix_(idx, idx)]):
+            return ("jaxsimp: metric of the simplified energy is not the variable block", dict(sig, kind="metric"))
     return None
